@@ -51,6 +51,12 @@ def check_default_instant(fb, chk, rule):
     chk.ob(rule, 'poller:starts-outside-grace', ok, b.where(0), detail)
 
 
+def _is_file_read(name):
+    last = name.split('::')[-1]
+    return ('File' in name and last in ('open', 'read_to_string', 'read_to_end', 'read', 'read_exact')) or \
+        name.endswith(('fs::read_to_string', 'fs::read')) or (last in ('read_to_string', 'read_to_end') and 'io::Read' in name)
+
+
 def run(ctx, chk):
     fb = ctx.facts()
     chk.explanation = ('P1: the poller\'s initial instant is now - c, c >= 5 s. P2: is_within_grace_period() is '
@@ -168,6 +174,16 @@ def run(ctx, chk):
             tr = tup[3][0]
             chk.ob('C13.P4', 'data:tracking-is-the-reply', fmt(tr).endswith('Some).0') and mentions_query(tr), p.where[2],
                    'data message carries %s' % fmt(tr)[-60:])
+            # P9: the PHC error bound attached to a report is read from the device *for that report*: the value comes from a
+            # file read made after the query on this iteration, not from anything carried over from an earlier one
+            if use_phc and not (psi.is_int_const(payload_phc) and payload_phc[1] == 0):
+                reads = [n for n, name, ef in info['calls'] if n > qn and _is_file_read(name)]
+                derived = [y for y in psi.walk(payload_phc) if y[0] == 't' and y[1] == 'call' and isinstance(y[2][1], int) and y[2][1] > min(reads or [qn])]
+                chk.ob('C13.P9', 'data:phc-bound-read-for-this-report', bool(reads) and bool(derived), p.where[2],
+                       'PHC error bound sent with the report is %s; file reads after the query on this path: %d%s' % (
+                           fmt(payload_phc)[:70], len(reads), '' if reads and derived else
+                           ' -- the value is not read from the device for this report (a value kept from an earlier poll is not the '
+                           "PHC's error bound when this report was made)"))
         key = (reply, use_phc if reply == 'tracking' else None, sysfs, info['grace'] if (reply == 'none' or sysfs == 'err') else None)
         rows.setdefault(key, set()).add((kind, 'zero' if (payload_phc is not None and psi.is_int_const(payload_phc) and payload_phc[1] == 0)
                                          else 'read' if payload_phc is not None else None))
@@ -233,14 +249,11 @@ def run(ctx, chk):
         chk.saw(b)
         pn = ('sym', b.debug_names.get(1, 'arg1'))
         n8 = 0
-        for bb, t, fn in common.user_calls(b):
-            nm = mir.callee_name(fn) if fn else ''
-            if nm.startswith('std::str::') and nm.split('::')[-1] in ('bytes', 'as_bytes', 'chars', 'char_indices', 'bytes_mut'):
-                n8 += 1
         eng8 = common.mk_engine(fb)
         for p in eng8.run(b):
             for ef in p.effects:
                 if ef['kind'] == 'call' and ef['callee'].startswith('std::str::') and ef['callee'].split('::')[-1] in ('bytes', 'as_bytes', 'chars', 'char_indices'):
+                    n8 += 1     # (helpers the conversion delegates to are inlined)
                     a0 = ef['args'][0]
                     src = a0 if a0[0] != 'ref' else eng8.load(p.state, a0[1])
                     verbatim = a0 == pn or src == pn or (a0[0] == 'ref' and a0[1][0][0] == 'S' and a0[1][0][1] == pn and not a0[1][1])
